@@ -119,9 +119,9 @@ Lemma rel_next_corr c0 q s : Rel c0 q s -> Rel c0 q (set_next_corr (next_corr s 
 Proof. intros R. destruct R. constructor; cbn; auto. lia. Qed.
 
 (* ---- add ---- *)
-Lemma sim_add c0 tdrv full c q s k a1 a2 a3 :
+Lemma sim_add c0 tdrv c q s k a1 a2 a3 :
   c_tdrv c = tdrv -> inv s -> Rel c0 q s ->
-  exists q', c09_step c0 tdrv full q (Add k a1 a2 a3) (snd (do_add k a1 a2 a3 s)) = Next q' /\ Rel c0 q' (fst (do_add k a1 a2 a3 s)).
+  exists q', c09_step c0 tdrv (ring_full s) q (Add k a1 a2 a3) (snd (do_add k a1 a2 a3 s)) = Next q' /\ Rel c0 q' (fst (do_add k a1 a2 a3 s)).
 Proof. intros Hc I R. destruct (do_add k a1 a2 a3 s) as [s' [[r cbs] cmds]] eqn:E. cbn [fst snd].
   pose proof (add_result k a1 a2 a3 s) as Hr. rewrite E in Hr. cbn in Hr.
   destruct Hr as [Hr|Hr].
@@ -129,7 +129,7 @@ Proof. intros Hc I R. destruct (do_add k a1 a2 a3 s) as [s' [[r cbs] cmds]] eqn:
     destruct R. cbn [c09_step]. rewrite R_client0.
     replace (q_max q <? next_corr s) with true by lia. cbn [existsb negb andb]. rewrite cmd_eqb_refl.
     assert (Hs' : s' = setm k (ins (next_corr s) (new_entry (now s) a1 a2 a3) (getm k (set_next_corr (next_corr s + 1) s))) (set_next_corr (next_corr s + 1) s)).
-    { unfold do_add in E. rewrite Ha, Hcl in E. cbn [negb] in E. destruct (kind_eqb k KCtr && _); [discriminate|].
+    { unfold do_add in E. rewrite Ha, Hcl in E. cbn [negb] in E. destruct (add_illegal k a1 a2 a3); [discriminate|].
       destruct (ring_full s); [discriminate|]. inversion E. reflexivity. }
     subst s'. eexists. split; [reflexivity|].
     constructor; cbn [set_qmax set_regs q_now q_closed q_regs q_max q_hmax q_close_sent]; rewrite ?setm_client_id, ?setm_now, ?setm_closed, ?setm_next_corr, ?setm_next_h, ?setm_close_sent; cbn [client_id now closed next_corr next_h close_sent set_next_corr]; auto; try lia.
@@ -152,8 +152,13 @@ Proof. intros Hc I R. destruct (do_add k a1 a2 a3 s) as [s' [[r cbs] cmds]] eqn:
         -- specialize (R_pt0 Hcl k' r'). destruct (rlookup k' r' (q_regs q)); exact R_pt0.
         -- destruct (kind_eqb k k') eqn:E5; [right|left; apply kind_eqb_neq in E5; congruence]. cbn in E3. lia.
   - assert (Hx : exists e, r = Err e) by (destruct Hr as [Hr|[Hr|[Hr|Hr]]]; subst r; eauto). destruct Hx as (e & He). subst r.
-    destruct (add_rejected _ _ _ _ _ _ _ _ _ E) as (Hs' & -> & ->). cbn. exists q. split; auto.
-    destruct Hs' as [->|(_ & _ & ->)]; auto. apply rel_next_corr. exact R. Qed.
+    destruct (add_rejected _ _ _ _ _ _ _ _ _ E) as (Hs' & -> & ->). cbn [fst snd c09_step]. exists q. split.
+    + (* the refusal has its reason *)
+      destruct (add_refused_why _ _ _ _ _ _ _ _ _ E) as [[-> _]|[[-> Hx]|[[-> Hx]|[-> Hx]]]]; try reflexivity.
+      * rewrite (R_closed _ _ _ R), Hx. reflexivity.
+      * rewrite Hx. reflexivity.
+      * rewrite Hx. reflexivity.
+    + destruct Hs' as [->|(_ & _ & ->)]; auto. apply rel_next_corr. exact R. Qed.
 
 (* re-establishing the relation after a step that only touches the registration (k, r) *)
 Lemma rel_frame c0 q s q' s' k r :
@@ -1049,7 +1054,7 @@ Lemma sim_step c0 tdrv tis q s o :
   inv s -> Rel c0 q s ->
   exists q', c09_step c0 tdrv (ring_full s) q o (snd (step (mkCfg tdrv tis) s o)) = Next q' /\ Rel c0 q' (fst (step (mkCfg tdrv tis) s o)).
 Proof. intros I R. destruct o; cbn [step].
-  - apply (sim_add c0 tdrv (ring_full s) (mkCfg tdrv tis)); auto.
+  - apply (sim_add c0 tdrv (mkCfg tdrv tis)); auto.
   - apply (sim_find c0 tdrv (ring_full s) (mkCfg tdrv tis)); auto.
   - apply sim_drop; auto.
   - apply sim_peek; auto.
@@ -1058,7 +1063,10 @@ Proof. intros I R. destruct o; cbn [step].
   - cbn [fst snd c09_step]. exists q. split; [reflexivity|]. destruct R. constructor; auto.
   - cbn [fst snd c09_step]. exists q. split; [reflexivity|]. destruct R. constructor; auto.
   - cbn [fst snd c09_step]. exists q. split; [reflexivity|]. destruct R. constructor; auto.
-  - apply sim_dowork; auto. Qed.
+  - apply sim_dowork; auto.
+  - (* CloseHandle: the conductor is not involved *)
+    unfold do_close_handle. destruct k; try (cbn [fst snd c09_step]; exists q; split; [reflexivity|exact R]);
+      (destruct (user_obj _ r s); cbn [fst snd c09_step]; exists q; (split; [reflexivity|]); [destruct R; constructor; auto|exact R]). Qed.
 
 Lemma oracle_run c0 tdrv tis ops : forall q s,
   inv s -> Rel c0 q s -> c09_run c0 tdrv (ring_full s) q ops (snd (run (mkCfg tdrv tis) s ops)) = true.
